@@ -1051,6 +1051,26 @@ func runC19(args []string) {
 			docs = append(docs, g.base(fam, mod))
 		}
 	}
+	// (1b) runs that really OVERLAP: several concurrent runs with budgets long enough that they are in flight together, with
+	// and without the loop-invariant observer (one observer instance serves every run of a scenario) and event reporting
+	for fam := 0; fam < 3; fam++ {
+		for mod := 0; mod < 3; mod++ {
+			for _, inv := range []bool{true, false} {
+				d := g.base(fam, mod)
+				d.RunNumber, d.MaxConcurrent = c19Int(4), c19Int(4)
+				d.CheckInvariant = c19Bool(inv)
+				iters := int64(1500)
+				if mod == 0 {
+					iters = 300
+				}
+				d.AnnealerParams = c19SetParam(d.AnnealerParams, c19PI("MaximumIterations", iters))
+				d.AnnealerParams = c19SetParam(d.AnnealerParams, c19PF("StartingTemperature", 10))
+				d.AnnealerParams = c19SetParam(d.AnnealerParams, c19PF("CoolingFactor", 0.999))
+				d.Note = []string{"overlapping concurrent runs"}
+				docs = append(docs, d)
+			}
+		}
+	}
 	// (2) every perturbation alone, on `rounds` applicable bases each
 	rounds, randomDocs := 3, 200
 	if tier == "thorough" {
